@@ -122,7 +122,7 @@ static void (*real_abort)(void) __attribute__((noreturn));
 /* ------------------------------------------------------------------------- */
 
 enum { K_FAULT, K_ACTION, K_PAUSE, K_KILL };
-enum { A_TRUNCATE, A_APPEND, A_UNLINK, A_REPLACE_DIR, A_REPLACE_SYMLINK, A_TOUCH, A_WRITE_AT, A_REPLACE_FILE };
+enum { A_TRUNCATE, A_APPEND, A_UNLINK, A_REPLACE_DIR, A_REPLACE_SYMLINK, A_TOUCH, A_WRITE_AT, A_REPLACE_FILE, A_SLEEP };
 
 struct spec {
     int kind;
@@ -576,6 +576,11 @@ static int parse_action_text(struct spec *sp)
     } else if (strncmp(a, "write-at:", 9) == 0) {
         sp->act = A_WRITE_AT;
         return parse_two_longs(a + 9, &sp->a, &sp->b);
+    } else if (strncmp(a, "sleep:", 6) == 0) {
+        /* the calling thread is held back for N ms before the call, other threads go on (the call is numbered and
+         * traced when it is finally made) */
+        sp->act = A_SLEEP;
+        return parse_long(a + 6, strlen(a + 6), &sp->a);
     }
     return -1;
 }
@@ -1096,7 +1101,17 @@ static int ev_begin(ev_t *e)
         }
     }
     if (pause) do_pause(e, pause);
-    for (int i = 0; i < nact; i++) do_action(e, acts[i]);
+    for (int i = 0; i < nact; i++) {
+        if (acts[i]->act == A_SLEEP) {
+            long ms = acts[i]->a;
+            pthread_mutex_unlock(&g_mu);
+            usleep((useconds_t)(ms > 0 ? ms : 0) * 1000);
+            pthread_mutex_lock(&g_mu);
+            if (!e->unnumbered) e->seq = ++g_counter;
+            continue;
+        }
+        do_action(e, acts[i]);
+    }
     if (kill_before) {
         trace_line(e->seq, "KILL-BEFORE:", e->call, e->path, e->extra, 0, 0, 0);
         die_now();
